@@ -2,14 +2,20 @@ import LeptosModel.Model.Url
 /-!
 # C15 — URL, query and parameter decoding is total and happens exactly once
 
-Property theorems.  `Bytes s` says every element is a byte; `utf8Valid s` is the
-invariant of Rust's `String`/`&str`.
+Property theorems about the code after the two repairs recorded in
+`known_findings.txt` (`fixed:` lines).  `Bytes s` says every element is a byte;
+`utf8Valid s` is the invariant of Rust's `String`/`&str`.
+
+Totality: the model functions of the repaired code (`unescape`, `PMap.insert`,
+`searchParams`, `pathParam`) are total Lean functions without an error case; the
+panic of the old code is the `none` of `unescapeOld`/`searchParamsOld`, kept for the
+regression witnesses at the end.
 -/
 namespace Leptos.Url
 
 def Bytes (s : List Nat) : Prop := ∀ b ∈ s, b < 256
 
-/-! ## helper lemmas -/
+/-! ## percent-encoding lemmas -/
 
 theorem hexVal_hexUp : ∀ n, n < 16 → hexVal (hexUp n) = some n := by decide
 
@@ -72,80 +78,319 @@ theorem lossyGo_of_valid (s : List Nat) : ∀ k, validGo k s = true → lossyGo 
 theorem utf8Lossy_of_valid (s : List Nat) (h : utf8Valid s = true) : utf8Lossy s = s :=
   lossyGo_of_valid s 0 h
 
-theorem unescape_noTriple (v : List Nat) (hv : utf8Valid v = true)
-    (hn : hasPctTriple v = false) : unescape v = some v := by
-  simp [unescape, pctDecode, pctGo_noTriple v hn, hv]
+/-- the characters `escape` can emit: ASCII alphanumerics and `%` -/
+def safeByte (b : Nat) : Bool := isAlnum b || b = 37
 
-theorem insertAll_eq_pushAll (l : List (List Nat × List Nat)) :
-    ∀ m : PMap, (∀ kv ∈ l, utf8Valid kv.2 = true ∧ hasPctTriple kv.2 = false) →
-      PMap.insertAll m l = some (PMap.pushAll m l) := by
+theorem hexUp_alnum : ∀ n, n < 16 → isAlnum (hexUp n) = true := by decide
+
+theorem escape_safe (s : List Nat) (hs : Bytes s) : ∀ b ∈ escape s, safeByte b = true := by
+  induction s with
+  | nil => simp [escape]
+  | cons c cs ih =>
+    have hc : c < 256 := hs c (by simp)
+    have hcs : Bytes cs := fun x hx => hs x (by simp [hx])
+    unfold escape
+    split
+    · next h =>
+      intro b hb
+      simp only [List.mem_cons] at hb
+      rcases hb with rfl | hb
+      · simp [safeByte, h]
+      · exact ih hcs b hb
+    · intro b hb
+      simp only [List.mem_cons] at hb
+      rcases hb with rfl | rfl | rfl | hb
+      · simp [safeByte]
+      · simp [safeByte, hexUp_alnum (c / 16) (by omega)]
+      · simp [safeByte, hexUp_alnum (c % 16) (by omega)]
+      · exact ih hcs b hb
+
+theorem safe_ne {b : Nat} (h : safeByte b = true) : b ≠ 38 ∧ b ≠ 61 ∧ b ≠ 43 := by
+  refine ⟨?_, ?_, ?_⟩ <;> (intro hb; subst hb; simp [safeByte, isAlnum] at h)
+
+theorem plusToSpace_safe (s : List Nat) (h : ∀ b ∈ s, safeByte b = true) : plusToSpace s = s := by
+  induction s with
+  | nil => rfl
+  | cons b bs ih =>
+    have hb := (safe_ne (h b (by simp))).2.2
+    have ih' := ih (fun x hx => h x (by simp [hx]))
+    unfold plusToSpace at ih' ⊢
+    simp [hb, ih']
+
+theorem formDecode_escape (s : List Nat) (hb : Bytes s) (hv : utf8Valid s = true) :
+    formDecode (escape s) = s := by
+  unfold formDecode
+  rw [plusToSpace_safe _ (escape_safe s hb), pctDecode_escape s hb, utf8Lossy_of_valid s hv]
+
+/-! ## splitting lemmas -/
+
+theorem splitOn_append (sep : Nat) (a rest : List Nat) (ha : ∀ b ∈ a, b ≠ sep) :
+    splitOn sep (a ++ sep :: rest) = a :: splitOn sep rest := by
+  induction a with
+  | nil => simp [splitOn]
+  | cons c cs ih =>
+    have hc : c ≠ sep := ha c (by simp)
+    have := ih (fun x hx => ha x (by simp [hx]))
+    simp [splitOn, hc, this]
+
+theorem splitOn_noSep (sep : Nat) (a : List Nat) (ha : ∀ b ∈ a, b ≠ sep) :
+    splitOn sep a = [a] := by
+  induction a with
+  | nil => simp [splitOn]
+  | cons c cs ih =>
+    have hc : c ≠ sep := ha c (by simp)
+    have := ih (fun x hx => ha x (by simp [hx]))
+    simp [splitOn, hc, this]
+
+theorem splitFirst_append (sep : Nat) (k v : List Nat) (hk : ∀ b ∈ k, b ≠ sep) :
+    splitFirst sep (k ++ sep :: v) = (k, v) := by
+  induction k with
+  | nil => simp [splitFirst]
+  | cons c cs ih =>
+    have hc : c ≠ sep := hk c (by simp)
+    have := ih (fun x hx => hk x (by simp [hx]))
+    simp [splitFirst, hc, this]
+
+/-! ## the query string of a list of pairs -/
+
+/-- one `k=v&` piece as `to_query_string` writes it -/
+def piece (kv : List Nat × List Nat) : List Nat := escape kv.1 ++ [61] ++ escape kv.2 ++ [38]
+
+def PairOK (kv : List Nat × List Nat) : Prop :=
+  Bytes kv.1 ∧ Bytes kv.2 ∧ utf8Valid kv.1 = true ∧ utf8Valid kv.2 = true
+
+theorem piece_body_no_amp (kv : List Nat × List Nat) (h : PairOK kv) :
+    ∀ b ∈ escape kv.1 ++ [61] ++ escape kv.2, b ≠ 38 := by
+  intro b hb
+  simp only [List.mem_append, List.mem_singleton] at hb
+  rcases hb with (hb | hb) | hb
+  · exact (safe_ne (escape_safe _ h.1 b hb)).1
+  · omega
+  · exact (safe_ne (escape_safe _ h.2.1 b hb)).1
+
+theorem parsePiece (kv : List Nat × List Nat) (h : PairOK kv) :
+    (let (k, v) := splitFirst 61 (escape kv.1 ++ [61] ++ escape kv.2); (formDecode k, formDecode v)) = kv := by
+  have hk : ∀ b ∈ escape kv.1, b ≠ 61 := fun b hb => (safe_ne (escape_safe _ h.1 b hb)).2.1
+  have : escape kv.1 ++ [61] ++ escape kv.2 = escape kv.1 ++ 61 :: escape kv.2 := by simp
+  rw [this, splitFirst_append 61 _ _ hk]
+  simp [formDecode_escape _ h.1 h.2.2.1, formDecode_escape _ h.2.1 h.2.2.2]
+
+/-- parsing the concatenation of pieces (with or without the final `&`) gives the pairs back -/
+theorem formParse_pieces (l : List (List Nat × List Nat)) (h : ∀ kv ∈ l, PairOK kv) :
+    formParse (l.flatMap piece) = l ∧ formParse ((l.flatMap piece).dropLast) = l := by
   induction l with
-  | nil => intro m _; simp [PMap.insertAll, PMap.pushAll]
+  | nil => simp [formParse, splitOn]
   | cons kv rest ih =>
-    intro m h
-    obtain ⟨k, v⟩ := kv
-    have hkv := h (k, v) (by simp)
-    simp only [PMap.insertAll, PMap.insert, unescape_noTriple v hkv.1 hkv.2, PMap.pushAll]
-    exact ih _ (fun x hx => h x (by simp [hx]))
+    have hkv := h kv (by simp)
+    have hrest := ih (fun x hx => h x (by simp [hx]))
+    have hbody := piece_body_no_amp kv hkv
+    have hne : (escape kv.1 ++ [61] ++ escape kv.2).isEmpty = false := by simp
+    have hp := parsePiece kv hkv
+    have e1 : (kv :: rest).flatMap piece
+        = (escape kv.1 ++ [61] ++ escape kv.2) ++ 38 :: rest.flatMap piece := by
+      simp [List.flatMap_cons, piece]
+    constructor
+    · rw [e1]
+      unfold formParse
+      rw [splitOn_append 38 _ _ hbody]
+      simp only [List.filter_cons, hne, Bool.not_false, ite_true, List.map_cons]
+      have := hrest.1
+      unfold formParse at this
+      rw [this]
+      congr 1
+    · cases rest with
+      | nil =>
+        have e2 : ([kv].flatMap piece).dropLast = escape kv.1 ++ [61] ++ escape kv.2 := by
+          have : [kv].flatMap piece = (escape kv.1 ++ [61] ++ escape kv.2) ++ [38] := by
+            simp [List.flatMap_cons, piece]
+          rw [this, List.dropLast_concat]
+        rw [e2]
+        unfold formParse
+        rw [splitOn_noSep 38 _ hbody]
+        simp only [List.filter_cons, hne, Bool.not_false, ite_true, List.filter_nil, List.map_cons, List.map_nil]
+        congr 1
+      | cons kv2 rest2 =>
+        have hne2 : (kv2 :: rest2).flatMap piece ≠ [] := by
+          simp [List.flatMap_cons, piece]
+        rw [e1]
+        have e3 : ((escape kv.1 ++ [61] ++ escape kv.2) ++ 38 :: (kv2 :: rest2).flatMap piece).dropLast
+            = (escape kv.1 ++ [61] ++ escape kv.2) ++ 38 :: ((kv2 :: rest2).flatMap piece).dropLast := by
+          rw [List.dropLast_append_of_ne_nil (by simp), List.dropLast_cons_of_ne_nil hne2]
+        rw [e3]
+        unfold formParse
+        rw [splitOn_append 38 _ _ hbody]
+        simp only [List.filter_cons, hne, Bool.not_false, ite_true, List.map_cons]
+        have := hrest.2
+        unfold formParse at this
+        rw [this]
+        congr 1
+
+/-! ## regrouping -/
+
+/-- the invariant of `ParamsMap`: keys pairwise distinct, every key has at least one value -/
+def MapOK : PMap → Prop
+  | [] => True
+  | (k, vs) :: rest => vs ≠ [] ∧ (∀ kv ∈ rest, kv.1 ≠ k) ∧ MapOK rest
+
+theorem push_append_new (m : PMap) (k v : List Nat) (h : ∀ kv ∈ m, kv.1 ≠ k) :
+    m.push k v = m ++ [(k, [v])] := by
+  induction m with
+  | nil => rfl
+  | cons e rest ih =>
+    obtain ⟨k', vs⟩ := e
+    have hk : k' ≠ k := h (k', vs) (by simp)
+    simp [PMap.push, hk, ih (fun x hx => h x (by simp [hx]))]
+
+theorem push_append_last (m : PMap) (k : List Nat) (vs : List (List Nat)) (v : List Nat)
+    (h : ∀ kv ∈ m, kv.1 ≠ k) : (m ++ [(k, vs)]).push k v = m ++ [(k, vs ++ [v])] := by
+  induction m with
+  | nil => simp [PMap.push]
+  | cons e rest ih =>
+    obtain ⟨k', vs'⟩ := e
+    have hk : k' ≠ k := h (k', vs') (by simp)
+    simp [PMap.push, hk, ih (fun x hx => h x (by simp [hx]))]
+
+theorem pushAll_values (acc : PMap) (k : List Nat) (done vs : List (List Nat)) (rest : List (List Nat × List Nat))
+    (h : ∀ kv ∈ acc, kv.1 ≠ k) :
+    PMap.pushAll (acc ++ [(k, done)]) (vs.map (fun v => (k, v)) ++ rest)
+      = PMap.pushAll (acc ++ [(k, done ++ vs)]) rest := by
+  induction vs generalizing done with
+  | nil => simp
+  | cons v vs ih =>
+    simp only [List.map_cons, List.cons_append, PMap.pushAll]
+    rw [push_append_last acc k done v h, ih (done ++ [v])]
+    simp
+
+theorem pushAll_mapPairs (m acc : PMap) (hm : MapOK m) (hacc : ∀ kv ∈ acc, ∀ kv' ∈ m, kv.1 ≠ kv'.1) :
+    PMap.pushAll acc (mapPairs m) = acc ++ m := by
+  induction m generalizing acc with
+  | nil => simp [mapPairs, PMap.pushAll]
+  | cons e rest ih =>
+    obtain ⟨k, vs⟩ := e
+    obtain ⟨hne, hdist, hrest⟩ := hm
+    cases vs with
+    | nil => exact absurd rfl hne
+    | cons v vs =>
+      have hk : ∀ kv ∈ acc, kv.1 ≠ k := fun kv hkv => hacc kv hkv (k, v :: vs) (by simp)
+      have e1 : mapPairs ((k, v :: vs) :: rest) = (k, v) :: (vs.map (fun v => (k, v)) ++ mapPairs rest) := by
+        simp [mapPairs, List.flatMap_cons]
+      rw [e1]
+      simp only [PMap.pushAll]
+      rw [push_append_new acc k v hk, pushAll_values acc k [v] vs (mapPairs rest) hk]
+      have := ih (acc ++ [(k, [v] ++ vs)]) hrest (by
+        intro kv hkv kv' hkv'
+        simp only [List.mem_append, List.mem_singleton] at hkv
+        rcases hkv with hkv | rfl
+        · exact hacc kv hkv kv' (by simp [hkv'])
+        · exact fun heq => hdist kv' hkv' heq.symm)
+      rw [this]; simp
 
 /-! ## property theorems -/
 
-/-- **escape ∘ unescape**: escaping any string and unescaping the result returns
-the original string (every Rust string is `Bytes` and `utf8Valid`). -/
+/-- **escape ∘ unescape**: escaping any string and unescaping the result returns the
+original string (every Rust string is `Bytes` and `utf8Valid`). -/
 theorem C15_escape_unescape (s : List Nat) (hb : Bytes s) (hv : utf8Valid s = true) :
-    unescape (escape s) = some s := by
-  simp [unescape, pctDecode_escape s hb, hv]
+    unescape (escape s) = s := by
+  simp [unescape, pctDecode_escape s hb, utf8Lossy_of_valid s hv]
 
-/-- **exactly once, full statement** (what the property asks of query values):
-the map the application reads is the once-decoded pair list, for every query. -/
-def C15_once_full : Prop := ∀ q : List Nat, searchParams q = some (searchParamsSpec q)
+/-- **query parameters are decoded exactly once**: for every raw query, looking a key up in
+the parsed map returns exactly the once-decoded values of the pairs with that key, with
+multiplicity and in order of appearance (`formParse` is one form-urlencoded decode). -/
+theorem C15_query_once (q k : List Nat) :
+    (searchParams q).getAll k =
+      (if valuesOf (formParse q) k = [] then none else some (valuesOf (formParse q) k)) := by
+  unfold searchParams
+  -- general statement over an accumulator
+  suffices h : ∀ (l : List (List Nat × List Nat)) (acc : PMap),
+      (PMap.pushAll acc l).getAll k =
+        match acc.getAll k with
+        | some vs => some (vs ++ valuesOf l k)
+        | none => if valuesOf l k = [] then none else some (valuesOf l k) by
+    simpa [PMap.getAll] using h (formParse q) []
+  intro l
+  induction l with
+  | nil => intro acc; cases h : acc.getAll k <;> simp [PMap.pushAll, valuesOf, h]
+  | cons kv rest ih =>
+    intro acc
+    obtain ⟨k', v⟩ := kv
+    simp only [PMap.pushAll]
+    rw [ih]
+    -- effect of one push on the lookup
+    have hpush : ∀ (m : PMap), (m.push k' v).getAll k =
+        if k' = k then some ((m.getAll k).getD [] ++ [v]) else m.getAll k := by
+      intro m
+      induction m with
+      | nil => by_cases hk : k' = k <;> simp [PMap.push, PMap.getAll, hk]
+      | cons e m ihm =>
+        obtain ⟨k2, vs2⟩ := e
+        by_cases hk : k' = k
+        · subst hk
+          simp only [ite_true] at ihm ⊢
+          by_cases h2 : k2 = k'
+          · subst h2; simp [PMap.push, PMap.getAll]
+          · simp [PMap.push, PMap.getAll, h2, ihm]
+        · simp only [hk, ite_false] at ihm ⊢
+          by_cases h2 : k2 = k'
+          · subst h2; simp [PMap.push, PMap.getAll, hk]
+          · by_cases h3 : k2 = k
+            · subst h3; simp [PMap.push, PMap.getAll, h2]
+            · simp [PMap.push, PMap.getAll, h2, h3, ihm]
+    rw [hpush]
+    by_cases hk : k' = k
+    · subst hk
+      have hv : valuesOf ((k', v) :: rest) k' = v :: valuesOf rest k' := by
+        simp [valuesOf, List.filterMap_cons]
+      rw [hv]
+      cases h : acc.getAll k' <;> simp
+    · have hv : valuesOf ((k', v) :: rest) k = valuesOf rest k := by
+        simp [valuesOf, List.filterMap_cons, hk]
+      rw [hv]
+      cases h : acc.getAll k <;> simp [hk]
 
-/-- the full statement is false of the code: `x=%2541` reads back as `"A"`,
-although one decode of `%2541` is `%41` (F-C15-1) -/
+/-- **path parameters are decoded exactly once**: a matched raw segment is stored as its
+single percent-decoding (when that is UTF-8; otherwise the offending bytes are replaced by
+U+FFFD — in neither case is there a panic or a second decode). -/
+theorem C15_path_param_once (seg : List Nat) (h : utf8Valid (pctDecode seg) = true) :
+    pathParam seg = pctDecode seg := by
+  simp [pathParam, unescape, utf8Lossy_of_valid _ h]
+
+theorem C15_path_param_lossy (seg : List Nat) : pathParam seg = utf8Lossy (pctDecode seg) := rfl
+
+/-- **query round-trip**: a parameter map (any keys and values that are Rust strings) written
+with `to_query_string` and parsed back is the same map — keys, values, multiplicity, order. -/
+theorem C15_query_roundtrip (m : PMap) (hm : MapOK m)
+    (hs : ∀ kv ∈ mapPairs m, PairOK kv) :
+    searchParams ((toQueryString m).drop 1) = m := by
+  cases m with
+  | nil => simp [toQueryString, searchParams, formParse, splitOn, PMap.pushAll]
+  | cons e rest =>
+    have hflat : ((e :: rest).flatMap fun kvs => kvs.2.flatMap fun v => escape kvs.1 ++ [61] ++ escape v ++ [38])
+        = (mapPairs (e :: rest)).flatMap piece := by
+      simp only [mapPairs, List.flatMap_assoc, List.flatMap_map, piece]
+    have hq : (toQueryString (e :: rest)).drop 1 = ((mapPairs (e :: rest)).flatMap piece).dropLast := by
+      simp only [toQueryString, List.isEmpty_cons, Bool.false_eq_true, ite_false, List.drop_succ_cons, List.drop_zero]
+      rw [← hflat]
+    rw [hq]
+    unfold searchParams
+    rw [(formParse_pieces _ hs).2]
+    simpa using pushAll_mapPairs (e :: rest) [] hm (by simp)
+
+/-! ## regression witnesses: what the code did before the repairs -/
+
+/-- F-C15-1 (repaired): `x=%2541` used to read back as `"A"`; one decode gives `%41` -/
 theorem C15_double_decode_witness :
-    searchParams [120, 61, 37, 50, 53, 52, 49] = some [([120], [[65]])] ∧
-    searchParamsSpec [120, 61, 37, 50, 53, 52, 49] = [([120], [[37, 52, 49]])] := by
+    searchParamsOld [120, 61, 37, 50, 53, 52, 49] = some [([120], [[65]])] ∧
+    searchParams [120, 61, 37, 50, 53, 52, 49] = [([120], [[37, 52, 49]])] := by
   decide
 
-theorem C15_once_full_false : ¬ C15_once_full := by
-  intro h
-  have := h [120, 61, 37, 50, 53, 52, 49]
-  revert this; decide
+/-- F-C15-2 (repaired): `x=%25FF` used to panic in the second decode -/
+theorem C15_panic_witness :
+    searchParamsOld [120, 61, 37, 50, 53, 70, 70] = none ∧
+    searchParams [120, 61, 37, 50, 53, 70, 70] = [([120], [[37, 70, 70]])] := by decide
 
-/-- **totality, full statement**: parsing never panics. -/
-def C15_total_full : Prop := ∀ q : List Nat, (searchParams q).isSome = true
-
-/-- false of the code: `x=%25FF` panics in the second decode (F-C15-2) -/
-theorem C15_panic_witness : searchParams [120, 61, 37, 50, 53, 70, 70] = none := by decide
-
-theorem C15_total_full_false : ¬ C15_total_full := by
-  intro h
-  have := h [120, 61, 37, 50, 53, 70, 70]
-  revert this; decide
-
-/-- a raw path segment that decodes to invalid UTF-8 panics as well (F-C15-3) -/
-theorem C15_path_param_panic_witness : pathParam [37, 70, 70] = none := by decide
-
-/-- **once + total, partial**: for every query whose once-decoded values contain
-no further `%HH` triple (the known-finding class is the negation of exactly this
-decidable hypothesis) the code neither panics nor decodes twice.
-`utf8Valid` of the values is the `String` invariant of what `query_pairs` returns. -/
-theorem C15_once_total_partial (q : List Nat)
-    (h : ∀ kv ∈ formParse q, utf8Valid kv.2 = true ∧ hasPctTriple kv.2 = false) :
-    searchParams q = some (searchParamsSpec q) :=
-  insertAll_eq_pushAll (formParse q) [] h
-
-/-- **path parameters are decoded exactly once** and never panic when the decoded
-bytes are UTF-8 (for a raw segment `seg`, the value read is `pctDecode seg`). -/
-theorem C15_path_param_once (seg : List Nat) (h : utf8Valid (pctDecode seg) = true) :
-    pathParam seg = some (pctDecode seg) := by
-  simp [pathParam, unescape, h]
-
-/-- a stored value that is read back through `insert` is unchanged iff … (the
-direction used by the round-trip): values without `%HH` survive `insert`. -/
-theorem C15_insert_noTriple (m : PMap) (k v : List Nat) (hv : utf8Valid v = true)
-    (hn : hasPctTriple v = false) : m.insert k v = some (m.push k v) := by
-  simp [PMap.insert, unescape_noTriple v hv hn]
+/-- F-C15-3 (repaired): a raw path segment `%FF` used to panic; now it is U+FFFD -/
+theorem C15_path_param_panic_witness :
+    unescapeOld [37, 70, 70] = none ∧ pathParam [37, 70, 70] = [0xEF, 0xBF, 0xBD] := by decide
 
 /-! ## non-vacuity -/
 
@@ -154,10 +399,15 @@ example : Bytes [60, 195, 169, 37] ∧ utf8Valid [60, 195, 169, 37] = true := by
   · intro b hb; simp at hb; omega
   · decide
 
-example : ∀ kv ∈ formParse [97, 61, 37, 52, 49, 38, 98, 61, 43],
-    utf8Valid kv.2 = true ∧ hasPctTriple kv.2 = false := by decide
-
-example : searchParams [97, 61, 37, 52, 49, 38, 98, 61, 43] = some [([97], [[65]]), ([98], [[32]])] := by
-  decide
+/-- a map with a repeated key, a `%41` value, `&`, `=` and a multi-byte character -/
+example :
+    let m : PMap := [([107, 38], [[37, 52, 49], [61]]), ([195, 169], [[]])]
+    MapOK m ∧ (∀ kv ∈ mapPairs m, PairOK kv) ∧ searchParams ((toQueryString m).drop 1) = m := by
+  refine ⟨?_, ?_, by decide⟩
+  · simp [MapOK]
+  · intro kv hkv
+    simp [mapPairs] at hkv
+    rcases hkv with rfl | rfl | rfl <;>
+      (refine ⟨?_, ?_, by decide, by decide⟩ <;> (intro b hb; simp at hb; try omega))
 
 end Leptos.Url
